@@ -76,6 +76,11 @@ def r10_2_fail_closed(ctx, prog, rule="R10.2"):
         n += 1
         if var == "Decodable":
             ok = isinstance(r, tuple) and r[0] == "DecodableFingerprint::validate" and r[2] == "top:input"
+            if not ok and r in (0, 1):
+                # `matches!(self, Decodable(a) if a.validate(input))`: the verdict is tested and returned as a constant
+                vc = pa.calls_to(r"DecodableFingerprint::validate$")
+                if len(vc) == 1 and C.expr_of(pa, vc[0][2])[1] == "top:input":
+                    ok = pa.choice(r"%s$" % re.escape(vc[0][4].split("@")[-1])) == r
         else:
             ok = r == 0
         ctx.ob(rule, "Fingerprint::validate:%s" % var, ok, "%s -> %s" % (var, show(r)[:120]), info["where"])
@@ -169,7 +174,17 @@ def r10_4_constants(ctx, prog, rule="R10.4"):
         r = _ret(pa)
         if r[0] == "Result::Ok":
             exp = ("Result::Ok", ("tuple", ("DecodableFingerprint", ("op:BitXor", (("common::decode", "top:buffer"), ".ok.0"), XOR)), 4))
-            ctx.ob(rule, "decode:value", same(r, exp), "decodes to %s" % show(r), info["where"], replay=pa.describe())
+            okv = same(r, exp)
+            if not okv:
+                # any other spelling of "the big-endian u32 at bytes 0..4, XOR-ed with the constant"
+                from . import bytesem
+                try:
+                    v = r[1][1][1]
+                    okv = r[1][2] == 4 and r[1][1][0] == "DecodableFingerprint" and isinstance(v, tuple) and v[0] == "op:BitXor" and \
+                        ((v[1] == XOR and bytesem.be_value(v[2]) == (0, 4)) or (v[2] == XOR and bytesem.be_value(v[1]) == (0, 4)))
+                except Exception:
+                    okv = False
+            ctx.ob(rule, "decode:value", okv, "decodes to %s" % show(r), info["where"], replay=pa.describe())
     # the u32 reader is big-endian
     b = prog.body("stun_rs::common::<impl stun_rs::Decode<'_> for u32>::decode", required=False)
     if b is None:
@@ -406,7 +421,14 @@ def r4_5_siblings(ctx, prog, rule="R4.5"):
         v = [c for c in pa.calls if re.search(r"::validate$", c[1])]
         if var in ("MessageIntegrity", "MessageIntegritySha256"):
             ty = MI_T if var == "MessageIntegrity" else SHA_T
-            ok = len(g) == 1 and g[0][1].endswith("::%s>" % var) and "raw_buffer" in repr(g[0][2])
+            ty_ok = len(g) == 1 and g[0][1].endswith("::%s>" % var)
+            if len(g) == 1 and not ty_ok and re.search(r"get_input_text::<[A-Z]\w*>$", g[0][1]):
+                # the call sits in a generic helper a refactoring introduced (`fn h<A: ..>() { get_input_text::<A>(..) }`):
+                # the type is the one the helper is instantiated with at its call site in this function
+                from ..absint import with_new_helpers
+                inst = [c.full for c in b.calls() if any(hb.key == c.callee_key for hb in with_new_helpers(prog, b)[1:])]
+                ty_ok = any(re.search(r"::<(\w+::)*%s[,>]" % var, f_) for f_ in inst)
+            ok = ty_ok and "raw_buffer" in repr(g[0][2])
             inp = pa.choice(r"^variant\(ret:get_input_text@")
             if inp == "Some":
                 ok = ok and len(v) == 1 and v[0][1].endswith("::%s::validate" % var) \
@@ -545,6 +567,17 @@ def r11_3_order(ctx, prog, rule="R11.3"):
            "StunMessageTimeout.timeouts : %s" % tys)
 
 
+def _peeked(x):
+    """an expression over the item a PeekMut guard derefs to, rewritten over the peeked element itself:
+    ((PeekMut::deref, (P, '.some')), '.*<rest>')  ->  (P, '.some.*<rest>')"""
+    if isinstance(x, tuple):
+        if len(x) == 2 and isinstance(x[1], str) and isinstance(x[0], tuple) and len(x[0]) == 2 and x[0][0] in ("PeekMut::deref", "PeekMut::deref_mut") \
+                and isinstance(x[0][1], tuple) and len(x[0][1]) == 2 and x[0][1][1] == ".some":
+            return (x[0][1][0], ".some" + x[1])
+        return tuple(_peeked(y) for y in x)
+    return x
+
+
 def r11_4_pairing(ctx, prog, rule="R11.4"):
     ctx.rule(rule, "pairing: add pushes Reverse(TimeoutItem{instant, timeout, id}) from its arguments; check pops exactly the "
                    "entries whose instant+timeout <= now and returns their ids, stopping at the first later one; remove "
@@ -567,38 +600,42 @@ def r11_4_pairing(ctx, prog, rule="R11.4"):
         for k, h in enumerate(heads):
             end = heads[k + 1] if k + 1 < len(heads) else len(pa.log)
             seg = pa.log[h + 1:end]
-            pkc = [e for e in seg if e[0] == "choice" and str(e[1]).startswith("variant(ret:peek@")]
+            pkc = [e for e in seg if e[0] == "choice" and re.match(r"variant\(ret:peek(_mut)?@", str(e[1]))]
             pk = pkc[0][2] if pkc else None
             # the due test: exactly one ordering decision, about (expiry, instant), deciding `expiry > instant` both ways
             facts = order_facts(pa, h + 1, end)
             due = None
             bad = None
-            pcs = [i for i in range(h + 1, end) if pa.log[i][0] == "call" and re.search(r"BinaryHeap::<.*>::peek$", pa.log[i][1])]
+            pcs = [i for i in range(h + 1, end) if pa.log[i][0] == "call" and re.search(r"BinaryHeap::<.*>::peek(_mut)?$", pa.log[i][1])]
             if len(pcs) != 1 or pa.log[pcs[0]][3] != ("t", "timeouts"):
                 bad = "%d peek calls on the heap in one iteration" % len(pcs)
             else:
                 peek = C.expr_of(pa, "top:" + pa.log[pcs[0]][4], 0, pcs[0] + 1)      # the heap as it is in this iteration
                 expires = ("Instant::add", item(fi), item(ft))
             for (a, b, t) in facts:
-                if same(a, expires) and b == "top:instant" and due is None:
+                if same(_peeked(a), expires) and b == "top:instant" and due is None:
                     due = 0 if t else 1
                 else:
                     bad = "ordering decision on %s > %s" % (show(a)[:60], show(b)[:40])
             pushes = [e for e in seg if e[0] == "call" and re.search(r"Vec::<.*>::push$", e[1])]
+            # the root is removed by heap.pop() or, when it was taken with peek_mut(), by PeekMut::pop(guard)
             pops = [e for e in seg if e[0] == "call" and re.search(r"BinaryHeap::<.*>::pop$", e[1])]
+            gpops = [e for e in seg if e[0] == "call" and re.search(r"PeekMut::<.*>::pop$", e[1])
+                     and len(pcs) == 1 and same(C.expr_of(pa, e[2][0], 0, pa.log.index(e)), (peek, ".some"))]
             key = "iteration:peek=%s,due=%s" % (pk, due)
             if bad is not None:
                 ok = False
                 why = bad
             elif pk == "Some" and due == 1:
-                ok = len(pushes) == 1 and len(pops) == 1 and pops[0][3] == ("t", "timeouts")
+                ok = len(pushes) == 1 and ((len(pops) == 1 and not gpops and pops[0][3] == ("t", "timeouts")) or (len(gpops) == 1 and not pops))
                 if ok:
-                    a = C.expr_of(pa, pushes[0][2][1], 0, pa.log.index(pushes[0]))
-                    ok = same(a, item(fid))
-                why = "due entry: %d push, %d pop" % (len(pushes), len(pops))
+                    a = _peeked(C.expr_of(pa, pushes[0][2][1], 0, pa.log.index(pushes[0])))
+                    popped = [(("PeekMut::pop", (peek, ".some")), ".0.%d" % fid), (("BinaryHeap::pop", "top:t.timeouts"), ".some.0.%d" % fid)]
+                    ok = same(a, item(fid)) or any(same(a, x) for x in popped)
+                why = "due entry: %d push, %d pop" % (len(pushes), len(pops) + len(gpops))
             else:
-                ok = not pushes and not pops and (pk != "Some" or due == 0)
-                why = "no due entry: %d push, %d pop" % (len(pushes), len(pops))
+                ok = not pushes and not pops and not gpops and (pk != "Some" or due == 0)
+                why = "no due entry: %d push, %d pop" % (len(pushes), len(pops) + len(gpops))
             if key not in seen or not ok:
                 seen[key] = (ok, why)
         # the function returns the vector it filled
